@@ -308,9 +308,18 @@ class Installation(object):
 
         def coop_start(worker):
             n = sum(1 for t in sched.threads if t.name.startswith("worker")) + 1
-            sched.spawn("worker%d" % n, worker.run)
+            worker._verif_thread = sched.spawn("worker%d" % n, worker.run)
             sched.yield_point(("spawned", "worker%d" % n))
         cls.start = coop_start
+        self.saved.append((cls, "join", cls.__dict__.get("join", None)))
+
+        def coop_join(worker, timeout=None):
+            # joining the handshake thread = waiting (cooperatively) until its managed thread has finished; a timed join gives up at once
+            t = getattr(worker, "_verif_thread", None)
+            if t is None or timeout is not None:
+                return
+            sched.wait_until(("join", t.name), lambda: t.finished)
+        cls.join = coop_join
         self.saved.append((cls, "is_alive", cls.__dict__.get("is_alive", None)))
         cls.is_alive = lambda worker: any(t.name.startswith("worker") and not t.finished for t in sched.threads)
 
